@@ -107,7 +107,9 @@ func runSched(name string) *result {
 	r := newResult()
 	var out string
 	switch name {
-	case "window-lost":
+	case "window":
+		// a Submit is parked between its (counted) running check and its push while the pool is shut down: the dispatcher
+		// must keep serving the queue, so the shutdown completes only after — and including — that task.
 		wd := newWorld(1, false)
 		defer unpark(wd.pool)
 		obs := observePop(any(wd.pool.Queue))
@@ -120,46 +122,48 @@ func runSched(name string) *result {
 			r.fail("harness", "submit hook not reached", map[string]string{"api": "harness", "effect": "hook-not-reached"})
 		}
 		wd.shutdown(bound)
-		complete := wd.waitComplete(bound)
+		if within(200*time.Millisecond, wd.pool.ShutdownComplete.Wait) {
+			r.fail("early-complete", "ShutdownComplete returned while an accepted task was not yet pushed",
+				map[string]string{"api": "workerpool.Submit", "effect": "shutdown-complete-before-accepted-task", "schedule": name})
+		}
 		close(p.release)
 		waitChan(subDone, bound)
+		complete := wd.waitComplete(bound)
 		zero := wd.waitZero(shortBound)
 		out = wd.outcome(complete, zero)
-		if !zero || !complete {
-			r.hangFail(wd, map[bool]string{true: "zero", false: "complete"}[complete], map[string]string{"schedule": name})
+		if len(wd.hangs) > 0 {
+			r.hangFail(wd, wd.hangs[0], map[string]string{"schedule": name})
 		}
-		r.perTaskOracle(wd, zero)
-	case "window-hang":
-		for attempt, pause := range []time.Duration{300 * time.Millisecond, time.Second, 3 * time.Second} {
-			wd := newWorld(1, false)
-			obs := observePop(any(wd.pool.Queue))
-			wd.start(bound)
-			gate := make(chan struct{})
-			wd.submit(body{gate: gate})
-			waitFor(bound, func() bool { return wd.runs[0].Load() == 1 })
-			obs.settled(1) // the dispatcher is back in PopOrWait on the empty queue (it passed the gap at least once)
-			p := parkSubmit(wd.pool)
-			subDone := make(chan struct{})
-			go func() { wd.submit(body{}); close(subDone) }()
-			waitChan(p.entered, bound)
-			wd.shutdown(bound)
-			time.Sleep(pause) // the dispatcher leaves its loop and blocks in WaitIsZero (task 0 is still pending)
-			close(p.release)
-			waitChan(subDone, bound)
-			close(gate)
-			complete := wd.waitComplete(shortBound)
-			zero := complete && wd.waitZero(shortBound)
-			out = wd.outcome(complete, zero)
-			unpark(wd.pool)
-			if !complete {
-				r.hangFail(wd, "complete", map[string]string{"schedule": name})
-				r.perTaskOracle(wd, false)
-
-				break
-			}
-			r.count(fmt.Sprintf("window-hang-attempt-%d-benign", attempt))
+		r.perTaskOracle(wd, complete)
+	case "window-busy":
+		// the same while another task is still running (the old dispatcher sat in WaitIsZero at this point)
+		wd := newWorld(1, false)
+		defer unpark(wd.pool)
+		obs := observePop(any(wd.pool.Queue))
+		wd.start(bound)
+		gate := make(chan struct{})
+		wd.submit(body{gate: gate})
+		waitFor(bound, func() bool { return wd.runs[0].Load() == 1 })
+		obs.settled(1)
+		p := parkSubmit(wd.pool)
+		subDone := make(chan struct{})
+		go func() { wd.submit(body{}); close(subDone) }()
+		waitChan(p.entered, bound)
+		wd.shutdown(bound)
+		time.Sleep(100 * time.Millisecond)
+		close(p.release)
+		waitChan(subDone, bound)
+		close(gate)
+		complete := wd.waitComplete(bound)
+		zero := wd.waitZero(shortBound)
+		out = wd.outcome(complete, zero)
+		if len(wd.hangs) > 0 {
+			r.hangFail(wd, wd.hangs[0], map[string]string{"schedule": name})
 		}
-	case "gap-lost":
+		r.perTaskOracle(wd, complete)
+	case "gap":
+		// the dispatcher is parked between PopOrWait's wait condition and its Wait (holding the queue's mutex) while
+		// Shutdown is called: the signal has to wait for the mutex and cannot be lost.
 		wd := newWorld(1, false)
 		defer unpark(wd.pool)
 		p := parkPop(any(wd.pool.Queue))
@@ -167,13 +171,18 @@ func runSched(name string) *result {
 		if !waitChan(p.entered, bound) {
 			r.fail("harness", "PopOrWait hook not reached", map[string]string{"api": "harness", "effect": "hook-not-reached"})
 		}
-		wd.shutdown(bound)
+		sdDone := make(chan struct{})
+		go func() { wd.shutdown(bound); close(sdDone) }()
+		if waitChan(sdDone, 200*time.Millisecond) {
+			r.count("gap-shutdown-returned-before-release") // allowed only if the signal still reaches the dispatcher
+		}
 		close(p.release)
-		complete := wd.waitComplete(shortBound)
+		waitChan(sdDone, bound)
+		complete := wd.waitComplete(bound)
 		zero := wd.waitZero(shortBound)
 		out = wd.outcome(complete, zero)
-		if !complete {
-			r.hangFail(wd, "complete", map[string]string{"schedule": name})
+		if len(wd.hangs) > 0 {
+			r.hangFail(wd, wd.hangs[0], map[string]string{"schedule": name})
 		}
 	case "restart":
 		wd := newWorld(1, false)
@@ -191,6 +200,48 @@ func runSched(name string) *result {
 		}
 		complete := ok && wd.waitComplete(bound)
 		zero := ok && wd.waitZero(shortBound)
+		out = wd.outcome(complete, zero)
+		if len(wd.hangs) > 0 {
+			r.hangFail(wd, wd.hangs[0], map[string]string{"schedule": name})
+		}
+		r.perTaskOracle(wd, complete)
+	case "start-race":
+		// A Start call (A) is parked in its window while another caller restarts the pool and shuts it down again:
+		// A must never wait for that shutdown while holding the pool lock.
+		wd := newWorld(1, false)
+		defer unpark(wd.pool)
+		obs := observePop(any(wd.pool.Queue))
+		gate1, gate2 := make(chan struct{}), make(chan struct{})
+		ok := wd.start(bound)
+		obs.settled(1)
+		wd.submit(body{gate: gate1})
+		waitFor(bound, func() bool { return wd.runs[0].Load() == 1 })
+		ok = ok && wd.shutdown(bound)
+		p := parkStart(wd.pool)
+		aDone := make(chan struct{})
+		go func() { wd.pool.Start(); close(aDone) }() // A
+		time.Sleep(50 * time.Millisecond)
+		close(gate1)
+		ok = ok && wd.waitComplete(bound)
+		if !waitChan(p.entered, bound) {
+			r.fail("harness", "Start hook not reached", map[string]string{"api": "harness", "effect": "hook-not-reached"})
+		}
+		n := obs.hits.Load()
+		ok = ok && wd.start(bound) // B
+		obs.settled(n + 1)
+		wd.submit(body{gate: gate2})
+		waitFor(bound, func() bool { return wd.runs[1].Load() == 1 })
+		ok = ok && wd.shutdown(bound) // B
+		close(p.release)              // A goes on
+		time.Sleep(100 * time.Millisecond)
+		close(gate2)
+		aOK := waitChan(aDone, shortBound)
+		if !aOK {
+			wd.hangs = append(wd.hangs, "start")
+		}
+		// A restarted the pool (or found it running): shut it down for good
+		complete := ok && aOK && wd.shutdown(bound) && wd.waitComplete(bound)
+		zero := ok && aOK && wd.waitZero(shortBound)
 		out = wd.outcome(complete, zero)
 		if len(wd.hangs) > 0 {
 			r.hangFail(wd, wd.hangs[0], map[string]string{"schedule": name})
